@@ -14,6 +14,8 @@
 // SetHexString; Pubkey.Deserialize / ByteToPublicKey / SetHexString / UnmarshalJSON).
 // Oracle (BLS signatures are unique): accepted <=> the presented public-key bytes and the
 // presented signature bytes are both byte-identical to the honest serialisations.
+// Structurally related messages (zero padding / stripping, 32-byte windows, end-bit flips) are
+// checked in both processing orders (related.go).
 // Further parts: serialise/parse round trips of Seckey / ID / Pubkey / Signature, and
 // bilinearity + non-degeneracy of the pairing over a small exponent set.
 package main
@@ -35,7 +37,7 @@ import (
 )
 
 type kase struct {
-	Kind string `json:"kind"` // verify | rt | pair
+	Kind string `json:"kind"` // verify | rt | pair | rel
 	// verify
 	Sk      string `json:"sk,omitempty"`  // secret key, hex big-endian
 	Msg     string `json:"msg,omitempty"` // message, hex
@@ -47,6 +49,9 @@ type kase struct {
 	// MustReject: the presented bytes were made for another message / key or are an algebraic relative
 	// that differs from the honest group element, so they must be rejected whatever their encoding is.
 	MustReject bool `json:"must_reject,omitempty"`
+	// rel: a structurally related message and the order in which the two messages are processed
+	Rel   string `json:"rel,omitempty"`
+	Order string `json:"order,omitempty"`
 	// rt
 	Type string `json:"type,omitempty"` // seckey | id | pubkey | sig
 	Ctor string `json:"ctor,omitempty"`
@@ -768,6 +773,25 @@ func run(c *fw.Ctx) {
 	c.Note("not_demanded", "round trip of the G2 identity (public key of the invalid secret key 0: Marshal gives 1 byte which Unmarshal rejects); IDs longer than 32 bytes (Serialize panics by design); malformed hex *strings*")
 	c.Note("outside_bound", "group elements other than the listed algebraic relatives of the honest signature / key (soundness there is the co-CDH assumption); flips of more than flip_depth_bits bits; keys and messages outside the fixed lists")
 
+	// ---- part 0: structurally related messages.  Runs first, so that nothing in this process has hashed,
+	// signed or verified any message before a case does (process-local state makes the order matter).
+	relKeys := []*big.Int{e.keys[3], e.keys[4]}
+	if c.Thorough() {
+		relKeys = append(relKeys, e.keys[2], e.keys[5])
+	}
+	enumRelated(relKeys, func(mkc func() kase) {
+		if stop || !mine() {
+			return
+		}
+		checkRelated(c, mkc())
+		executed()
+	})
+	if stop {
+		finish("related messages")
+		return
+	}
+	c.Sample(kase{Kind: "rel", Sk: hx(e.keys[3].Bytes()), Msg: hx(relBase(33, "lead0", "sample")), Rel: hx(relBase(33, "lead0", "sample")[1:]), Order: "r-first", Class: "drop-leading-zeros/len33/lead0"})
+
 	// ---- part 1: round trips
 	vals := rtValues()
 	for _, v := range vals {
@@ -1084,6 +1108,8 @@ func replay(c *fw.Ctx, raw json.RawMessage) {
 		checkRT(c, k)
 	case "pair":
 		checkPair(c, newEnv(c.Thorough()), k)
+	case "rel":
+		checkRelated(c, k)
 	default:
 		panic("unknown case kind " + k.Kind)
 	}
@@ -1094,6 +1120,7 @@ func main() {
 		ID:    "C14",
 		Level: "exploration",
 		Rule: "a case is (secret key, message, presented public-key bytes, pk parse path, presented signature bytes, sig parse path) " +
+			"or one (key, base message, structurally related message, processing order) quadruple on its own salted base bytes, " +
 			"or one round-trip value/constructor or one pairing exponent pair; byte strings within one context are de-duplicated " +
 			"(structured mutants equal to the honest bytes, to each other, or within the enumerated flip distance are dropped), so every " +
 			"counted case is distinct by construction; non-trivial = every case except none (each presents either the honest bytes or a " +
